@@ -11,7 +11,7 @@ thread pre-emption, large outputs).
 import copy
 
 from . import harness
-from .engine import Violation, gen_costs, collect_info, cut, gen_dt
+from .engine import Violation, gen_costs, collect_info, cut, gen_dt, gen_eintr
 from .harness import EOF, TIMEOUT
 from .world import SimHang, HarnessError
 
@@ -122,6 +122,7 @@ def generate(rng):
     scn['step_cap'] = 500000 if n > 5000 else 200000
     if n > 5000:
         scn['record_sites'] = False
+    gen_eintr(rng, scn)
     return scn
 
 
